@@ -284,14 +284,16 @@ theorem result_ids_fresh_map_copy {r : Nat} (m : OMap r) (addr : Nat) (c : Ctx) 
 /-- `ByteArrayToByteSlice (ByteSliceToByteArray bs) = bs`, and the intermediate array is valid and
     holds one element per byte — for every legal threshold, every byte list, every size estimate
     (fast path and `NewArrayFromBatchData` fallback), every byte-element size function within the
-    inline limit. -/
+    inline limit.  `isT` is the type assertion `e.(T)` of `ByteArrayToByteSlice` (the dynamic Go
+    type of an element is not part of a model element): every `T(b)` passes it. -/
 theorem bytes_roundtrip (T addr ty est : Nat) (hT : legalThreshold T = true) (bsize : Nat → Nat)
+    (isT : Elem → Bool) (hisT : ∀ b, isT (Bytes.byteElem bsize b) = true)
     (bs : List Nat) (hb : ∀ b ∈ bs, 1 ≤ bsize b ∧ bsize b ≤ maxInlineArr T)
     (hlen : bs.length ≤ maxArrayElementCount) (c : Ctx) :
     ∃ a c', Bytes.byteSliceToByteArray T addr ty bsize bs est c = .ok (a, c') ∧
-      Bytes.byteArrayToByteSlice a = .ok bs ∧ ArrInv T a c'.ctr ∧
+      Bytes.byteArrayToByteSlice isT a = .ok bs ∧ ArrInv T a c'.ctr ∧
       a.toList = bs.map (Bytes.byteElem bsize) := by
-  obtain ⟨a, c', h1, h2, h3, _, h5⟩ := bytes_roundtrip_full hT addr ty est bsize bs hb (by omega) c
+  obtain ⟨a, c', h1, h2, h3, _, h5⟩ := bytes_roundtrip_full hT addr ty est bsize isT hisT bs hb (by omega) c
   exact ⟨a, c', h1, h5, h2, h3⟩
 
 end Atree.C17
